@@ -145,6 +145,7 @@ Proof.
   all: try (cbn; destruct closeidle_closes_h3; reflexivity).
   all: try (pose proof (do_bg_tls e c) as H; destruct (do_bg e c) as [ds c']; exact H).
   all: try (pose proof (do_req_tls g e c) as H; destruct (do_req_gen g e c) as [[o ds] c']; exact H).
+  destruct (do_req_gen g e (fork_apply a (do_clone c))) as [[o ds] c2]. destruct (do_bg e c2) as [ds2 c3]. reflexivity.
 Qed.
 
 Lemma run_tls g e ops : forall c, c_tls (snd (run_gen g e c ops)) = settings ops (c_tls c).
@@ -590,6 +591,7 @@ Proof.
   all: try (unfold inv3, inv2; cbn; destruct closeidle_closes_h3; cbn; split; auto; discriminate).
   all: try (pose proof (do_bg_inv e c I3 I2) as H; destruct (do_bg e c) as [ds c']; exact H).
   all: try (pose proof (do_req_inv g e c I3 I2) as H; destruct (do_req_gen g e c) as [[o ds] c']; exact H).
+  destruct (do_req_gen g e (fork_apply a (do_clone c))) as [[o ds] c2]. destruct (do_bg e c2) as [ds2 c3]. cbn [snd]. auto.
 Qed.
 
 Lemma run_inv g e ops : forall c, inv3 e c -> inv2 e c -> inv3 e (snd (run_gen g e c ops)) /\ inv2 e (snd (run_gen g e c ops)).
@@ -733,3 +735,176 @@ Lemma forced_fixed_example :
      ObsBg [mkDial S3 (bs "localhost") [alpn_h3] true] AObsReady;
      ObsReq (Use V1) []].
 Proof. vm_compute. reflexivity. Qed.
+
+(* ---------- a throw-away clone never changes the original ---------- *)
+Lemma fork_leaves_original g e c a : snd (step_gen g e c (OFork a)) = c.
+Proof.
+  cbn [step_gen]. destruct (do_req_gen g e (fork_apply a (do_clone c))) as [[o ds] c2].
+  destruct (do_bg e c2) as [ds2 c3]. reflexivity.
+Qed.
+
+(* ... and the clone starts from the original's settings and switches, with no connection of its own *)
+Lemma clone_spec c :
+  c_tls (do_clone c) = c_tls c /\ c_force (do_clone c) = c_force c /\ c_h3 (do_clone c) = c_h3 c /\
+  c_plain_dialtls (do_clone c) = c_plain_dialtls c /\
+  c_idle (do_clone c) = false /\ c_idle1 (do_clone c) = false /\ c_t2 (do_clone c) = false /\
+  c_t3 (do_clone c) = T3None /\ c_alt (do_clone c) = ANone.
+Proof. unfold do_clone. cbn. repeat split; reflexivity. Qed.
+
+(* ---------- a request that needs a new connection is decided by the settings, whatever the version ---------- *)
+Definition no_conns (c : client) : Prop :=
+  c_idle c = false /\ c_idle1 c = false /\ c_t2 c = false /\ c_t3 c = T3None.
+
+(* such a request either handshakes or fails for a reason that is not a certificate *)
+Definition dials_or_fails (r : res) : Prop :=
+  let '(o, ds, _) := r in
+  o <> Cleartext /\ (ds <> [] \/ exists er, o = Fail er /\ er <> ECert).
+
+Lemma rt_h3_dials oc e c r :
+  e_https e = true -> c_t3 c = T3None -> rt_h3 oc e c = Some r -> dials_or_fails r.
+Proof.
+  intros Hs H3. unfold rt_h3. rewrite Hs, H3. cbn [negb].
+  destruct oc; [discriminate|].
+  destruct (h3_dial e c) as [h d]. destruct h as [p|er].
+  - intros H; inversion H. split; [discriminate | left; discriminate].
+  - destruct er; intros H; inversion H; (split; [discriminate|]); try (left; discriminate).
+    right. eexists; split; [reflexivity | discriminate].
+Qed.
+
+Lemma rt_h2_dial_dials e c :
+  e_https e = true -> c_plain_dialtls c = false -> c_t2 c = false -> dials_or_fails (rt_h2_dial e c).
+Proof.
+  intros Hs Hp H2. unfold rt_h2_dial. rewrite Hs, Hp, H2. cbn [negb orb andb].
+  destruct (handshake (s_alpn (e_srv e)) (tls_view S2 false (e_host e) (c_tls c)) (e_srv e)) as [p|er].
+  - destruct (opt_bytes_eqb p (Some alpn_h2)); (split; [discriminate | left; discriminate]).
+  - split; [discriminate | left; discriminate].
+Qed.
+
+Lemma rt_conn_dials e c :
+  e_https e = true -> c_plain_dialtls c = false -> c_idle c = false -> c_idle1 c = false ->
+  dials_or_fails (rt_conn e c).
+Proof.
+  intros Hs Hp Hi Hi1. unfold rt_conn. rewrite Hs, Hp, Hi, Hi1. cbn [negb].
+  set (oh := match c_force c with FH1 => true | _ => false end).
+  replace (if oh then false else false) with false by (destruct oh; reflexivity).
+  destruct (handshake (s_alpn (e_srv e)) (tls_view S1 oh (e_host e) (c_tls c)) (e_srv e)) as [p|er].
+  - destruct (negb oh && opt_bytes_eqb p (Some alpn_h2)); (split; [discriminate | left; discriminate]).
+  - split; [discriminate | left; discriminate].
+Qed.
+
+Lemma check_altsvc_dials e c r :
+  e_https e = true -> c_t3 c = T3None -> check_altsvc e c = Some r -> dials_or_fails r.
+Proof.
+  intros Hs H3. unfold check_altsvc. destruct (negb (c_h3 c)); [discriminate|].
+  destruct (c_alt c) as [|[|]|]; try discriminate.
+  - destruct (rt_h3 false e c) as [[[o ds] c']|] eqn:E; [|discriminate].
+    apply (rt_h3_dials _ _ _ _ Hs H3) in E. unfold dials_or_fails in *.
+    destruct o as [v| |er]; intros H; inversion H; subst; exact E.
+  - apply rt_h3_dials; assumption.
+Qed.
+
+Lemma round_trip_dials g e c :
+  e_https e = true -> c_plain_dialtls c = false -> no_conns c -> dials_or_fails (round_trip_gen g e c).
+Proof.
+  intros Hs Hp (Hi & Hi1 & H2 & H3). unfold round_trip_gen.
+  destruct (if g && negb match c_force c with FNone => true | _ => false end then None else check_altsvc e c) eqn:A.
+  - destruct (g && negb match c_force c with FNone => true | _ => false end); [discriminate|].
+    eapply check_altsvc_dials; eauto.
+  - rewrite Hs, H2. destruct (c_force c); cbn [andb negb].
+    + destruct (c_h3 c); [|apply rt_conn_dials; assumption].
+      destruct (rt_h3 true e c) eqn:E; [eapply rt_h3_dials; eauto | apply rt_conn_dials; assumption].
+    + apply rt_conn_dials; assumption.
+    + apply rt_h2_dial_dials; assumption.
+    + destruct (rt_h3 false e c) eqn:E; [eapply rt_h3_dials; eauto|].
+      split; [discriminate|]. right. eexists; split; [reflexivity | discriminate].
+Qed.
+
+Lemma after_response_dials e r : dials_or_fails r -> dials_or_fails (after_response e r).
+Proof.
+  destruct r as [[o ds] c']. unfold after_response.
+  destruct o as [[| |]| |]; try (intros H; exact H);
+    (destruct (c_h3 c' && s_altsvc (e_srv e)); [destruct (c_alt c')|]; intros H; exact H).
+Qed.
+
+(* the uniformity clause: on whatever version the dispatch ends up (forced or not, Alt-Svc learned or not), a
+   request that has no connection to reuse is refused when the origin is unacceptable under the client's
+   settings, and is never refused for its certificate when the origin is acceptable *)
+Lemma new_connection_decided_by_settings e c :
+  e_https e = true -> c_plain_dialtls c = false -> no_conns c ->
+  (acceptable e c = false -> exists er, outcome_of (do_req e c) = Fail er) /\
+  (acceptable e c = true -> outcome_of (do_req e c) <> Fail ECert).
+Proof.
+  intros Hs Hp Hn.
+  pose proof (do_req_sound altsvc_only_unforced e c) as S.
+  pose proof (after_response_dials e _ (round_trip_dials altsvc_only_unforced e c Hs Hp Hn)) as D.
+  unfold do_req. fold (do_req_gen altsvc_only_unforced e c) in D.
+  unfold req_sound in S. unfold dials_or_fails in D.
+  destruct (do_req_gen altsvc_only_unforced e c) as [[o ds] c']. unfold outcome_of. cbn [fst].
+  destruct S as [_ S]. destruct D as [NC [D|[er [-> Her]]]].
+  - destruct (S D) as [SU SF]. split.
+    + intros A. destruct o as [v| |er]; [|contradiction|eexists; reflexivity].
+      rewrite (SU v eq_refl) in A. discriminate.
+    + intros A Hc. rewrite (SF Hc) in A. discriminate.
+  - split; [intros _; eexists; reflexivity|]. intros _ Hc. inversion Hc. contradiction.
+Qed.
+
+(* all three forced versions agree: same client settings, same origin, no connection to reuse *)
+Lemma forced_versions_agree e c f :
+  e_https e = true -> c_plain_dialtls c = false -> no_conns c ->
+  (acceptable e c = false -> exists er, outcome_of (do_req e (with_force f c)) = Fail er) /\
+  (acceptable e c = true -> outcome_of (do_req e (with_force f c)) <> Fail ECert).
+Proof.
+  intros Hs Hp Hn. apply (new_connection_decided_by_settings e (with_force f c)); assumption.
+Qed.
+
+(* ---------- forcing a version after the client has been used ---------- *)
+Lemma run_snoc g e ops o : forall c,
+  snd (run_gen g e c (ops ++ [o])) = snd (step_gen g e (snd (run_gen g e c ops)) o).
+Proof.
+  induction ops as [|x r IH]; intros c.
+  - cbn [app run_gen snd]. destruct (step_gen g e c o) as [y c1]. reflexivity.
+  - cbn [app run_gen]. destruct (step_gen g e c x) as [y c1]. specialize (IH c1).
+    destruct (run_gen g e c1 (r ++ [o])) as [ys c2]. destruct (run_gen g e c1 r) as [zs c3]. cbn [snd] in *. exact IH.
+Qed.
+
+Lemma step_force g e c f : c_force (snd (step_gen g e c (OForce f))) = f.
+Proof. destruct f; reflexivity. Qed.
+
+(* whatever was done with the client before (requests on any version, cached connections, learned Alt-Svc
+   entries, clones ...), once a version is forced the next request uses it or fails *)
+Lemma forced_after_any_history e c0 ops f v :
+  version_of f = Some v ->
+  let c := snd (run e c0 (ops ++ [OForce f])) in
+  match outcome_of (do_req e c) with
+  | Use v' => v' = v
+  | Cleartext => c_plain_dialtls c = true /\ e_https e = true
+  | Fail _ => True
+  end.
+Proof.
+  intros Hv c. apply forced_version_or_fail. subst c. unfold run. rewrite run_snoc, step_force. exact Hv.
+Qed.
+
+(* non-vacuity of the uniformity clause: the same settings, three forced versions, origin offering all three:
+   accepted three times with the private root, refused three times with the wrong root *)
+Definition h3_env : env :=
+  mkEnv true (bs "localhost") (mkSrv [alpn_h2; alpn_h1] true false false 1%N [bs "localhost"] None).
+Lemma uniform_example :
+  map (fun f => fst (run h3_env new_client [OAddRoot 1%N; OForce f; OReq])) [FH1; FH2; FH3] =
+    [[ObsCfg; ObsCfg; ObsReq (Use V1) [mkDial S1 (bs "localhost") [] true]];
+     [ObsCfg; ObsCfg; ObsReq (Use V2) [mkDial S2 (bs "localhost") [alpn_h1; alpn_h2] true]];
+     [ObsCfg; ObsCfg; ObsReq (Use V3) [mkDial S3 (bs "localhost") [alpn_h3] true]]] /\
+  map (fun f => fst (run h3_env new_client [OAddRoot 2%N; OForce f; OReq])) [FH1; FH2; FH3] =
+    [[ObsCfg; ObsCfg; ObsReq (Fail ECert) [mkDial S1 (bs "localhost") [] false]];
+     [ObsCfg; ObsCfg; ObsReq (Fail ECert) [mkDial S2 (bs "localhost") [alpn_h1; alpn_h2] false]];
+     [ObsCfg; ObsCfg; ObsReq (Fail ECert) [mkDial S3 (bs "localhost") [alpn_h3] false]]].
+Proof. split; vm_compute; reflexivity. Qed.
+
+(* ---------- structural guards (regenerated from the Go source on every run) ----------
+   The model has ONE tls.Config per client, read afresh by every dial of every stack.  That is the code's
+   structure only as long as: Clone gives the clone its own Options and points the clone's http2 transport at
+   them; the http3 round tripper points at the transport's Options; http2 newTLSConfig and http3 dial derive
+   their tls.Config from it on every call (not once).  A change of any of these breaks this lemma. *)
+Lemma gen_single_config_read_per_dial :
+  clone_own_options = true /\ t3_shares_options = true /\
+  h3_dial_config_per_dial = true /\ h2_config_per_dial = true.
+Proof. repeat split; reflexivity. Qed.
